@@ -5,13 +5,17 @@
    spacing: for every document tree, every wrapper and every two modes the rendered outputs agree on
    every line that is not empty up to quote markers and indentation (Proofs/SpacingProofs.v, a
    simulation between the two renderer runs).  What the modes do to the tightness Marko reads back
-   is decided on the implementation by harness/c10.py.  Property theorems only. *)
+   is decided on the implementation by harness/c10.py.  The modes themselves (Proofs/ModeProofs.v): rendering
+   under any mode is rendering under preserve the tree whose lists are re-labelled with the tightness
+   the mode decides - preserve re-labels nothing, loose marks every list loose, tight marks a list tight
+   exactly when each of its items holds at most one block; nothing else depends on the mode.
+   Property theorems only. *)
 From Coq Require Import List NArith ZArith Bool.
 Import ListNotations.
 From Base Require Import PyStr CliTypes.
 From Model Require Import Ast Transforms.
 From Model Require Import Render.
-From Proofs Require Import RenderProofs SpacingProofs.
+From Proofs Require Import RenderProofs SpacingProofs ModeProofs.
 
 Theorem C10_cleanup_touches_wholly_bold_headings_only : forall bs,
   map blk_shape (doc_cleanups bs) = map blk_shape bs /\
@@ -50,3 +54,39 @@ Proof.
   eexists. eexists. split; [vm_compute; reflexivity|]. split; [vm_compute; reflexivity|].
   split; [intro E; discriminate E|]. split; [vm_compute; reflexivity|]. repeat constructor.
 Qed.
+
+(* the three modes are re-labellings of list tightness and nothing else: for every tree, wrapper and
+   reference table, the output (or the exception) under a mode is that of preserve on the re-labelled tree *)
+Theorem C10_modes_only_relabel_list_tightness : forall wrapper refdefs mode blocks,
+  render_doc wrapper mode refdefs blocks = render_doc wrapper LPreserve refdefs (map (retight mode) blocks).
+Proof. exact mode_is_relabelling_doc. Qed.
+Print Assumptions C10_modes_only_relabel_list_tightness.
+
+Theorem C10_preserve_keeps_every_list_as_authored : forall b, retight LPreserve b = b.
+Proof. exact retight_preserve. Qed.
+Print Assumptions C10_preserve_keeps_every_list_as_authored.
+
+Theorem C10_loose_marks_every_list_loose : forall b,
+  lists_labelled (fun tight _ => tight = false) (retight LLoose b).
+Proof. exact retight_loose_labels. Qed.
+Print Assumptions C10_loose_marks_every_list_loose.
+
+Theorem C10_tight_marks_exactly_the_single_block_lists : forall b,
+  lists_labelled (fun tight items => tight = single_block_items items) (retight LTight b).
+Proof. exact retight_tight_labels. Qed.
+Print Assumptions C10_tight_marks_exactly_the_single_block_lists.
+
+Theorem C10_mode_choice_is_idempotent : forall mode b, retight mode (retight mode b) = retight mode b.
+Proof. exact retight_idem. Qed.
+Print Assumptions C10_mode_choice_is_idempotent.
+
+(* non-vacuity: the quoted two-item list authored tight is re-labelled by loose and kept by tight; a list
+   with a two-block item is re-labelled loose by tight *)
+Example C10_relabel_example :
+  map (retight LLoose) C10_example_doc <> C10_example_doc /\
+  map (retight LTight) C10_example_doc = C10_example_doc /\
+  retight LTight (BNode (KList false [45%N] 1%Z true)
+                    [BNode KItem [BLeaf (LPara None [IRaw [97%N]]); BLeaf (LPara None [IRaw [98%N]])]]) =
+  BNode (KList false [45%N] 1%Z false)
+        [BNode KItem [BLeaf (LPara None [IRaw [97%N]]); BLeaf (LPara None [IRaw [98%N]])]].
+Proof. split; [intro E; discriminate E|]. split; reflexivity. Qed.
